@@ -19,6 +19,14 @@ Theorems (all over Model/Routing.lean applied to the tables regenerated from /re
   metadata_served_from_cache / metadata_autocreate_decision / metadata_autocreate_unknown / topicsToRefresh_spec / refreshDone_spec
                             roundTrip's metadata arm: served from the cache unless auto-creation meets an unknown topic; what it then waits for
   layout_sources            makeLayout/makePartitions field copies (regenerated tables) agree with the model's
+  update_state_writes / failed_first_refresh_is_reported / metadata_after_recovery / refresh_recovers
+                            what update writes to the cached state (regenerated); an error from a failed FIRST refresh is
+                            reported only until the next successful refresh
+  produce_record_format / produce_encoded_for_negotiated_version / prepare_uses_request_version / leave_group_body
+                            the body parts Prepare derives from the negotiated version (regenerated): record format
+                            (magic) of Produce fits the version for every version; LeaveGroup member id below v3
+  split_parts_carry_request_fields / split_options_arrive
+                            every sub-request a Split method builds sets every wire field of the request (regenerated table)
   layout_omits_internal     makeLayout never lists an internal topic, so refreshMetadata cannot see one appear (observation)
   negotiated_unlisted       an API the broker does not list: version 0 if the client supports it, else refused client-side
   parts_cover_splitters     every Splitter type of the source has a split model (regenerated table, decide)
@@ -253,7 +261,7 @@ theorem update_follows (s : PoolState) (m : MResponse) (h : ConnsInv s) :
 /-- a failed refresh never replaces a known cluster view -/
 theorem update_error_keeps_known (s : PoolState) (m : Option MResponse) (h : s.metadata.isSome = true) :
     update s m true = s := by
-  simp [update, h]
+  simp [update, h, updateErrorKeepsKnown]
 
 /-- **conns_invariant**: along every history of refreshes (successful or failed, any answers) the connection
 groups are exactly the brokers of the cached layout: a request routed to a broker of the layout always finds
@@ -645,5 +653,115 @@ theorem negotiated_unlisted (client : Nat → Int × Int) (table : List (Nat × 
   by_cases h1 : 0 < (client key).1 <;> by_cases h2 : (client key).2 < 0 <;> simp [h1, h2] <;> omega
 
 end misc
+
+
+/-! ## recovery after a failed first refresh -/
+
+section recovery
+open KV.RoundTrip KV.Discover
+open KV.Lemmas.Routing (ConnsInv)
+
+/-- what `update` writes to the cached state (regenerated from transport.go): a failed refresh keeps a known view and
+otherwise stores the error; a successful one installs metadata and layout and clears the error -/
+theorem update_state_writes :
+    updateErrorKeepsKnown = true ∧ updateErrorStoresErr = true ∧ updateSuccessSetsMetadata = true ∧
+    updateSuccessSetsLayout = true ∧ updateSuccessClearsErr = true := by decide
+
+/-- a failed refresh while nothing is cached yet makes metadata requests fail with that error … -/
+theorem failed_first_refresh_is_reported (s : PoolState) (hm : s.metadata = none) (q : MetaReq) :
+    metadataDecision (update s none true) q = .cacheError := by
+  simp [metadataDecision, update, hm, updateErrorKeepsKnown, updateErrorStoresErr]
+
+/-- **metadata_after_recovery**: … but only until the next successful refresh: whatever state the pool was in (in
+particular with the error of a failed first refresh), after `update(m)` a metadata request is answered from `m`
+again (and never with the stale error) -/
+theorem metadata_after_recovery (s : PoolState) (m : MResponse) (names : Option (List String)) :
+    metadataDecision (update s (some m) false) ⟨names, false⟩ = .fromCache (filterMetadata names (normalize m)) := by
+  simp [metadataDecision, update, updateSuccessClearsErr, updateSuccessSetsMetadata]
+
+/-- over the refresh loop: any history of faults (also before the first success), then a tick and an answer `m`:
+the loop is alive, the error is gone and metadata requests are served from `m` -/
+theorem refresh_recovers (es : List DEvent) (s s' : DState) (m : MResponse) (names : Option (List String))
+    (hrun : run discoverExits s es = some s') (halive : s.alive = true) (hopen : s'.closed = false)
+    (hphase : s'.phase = .waiting) (hnoclose : ∀ e ∈ es, e.isClose = false) (hinv : ConnsInv s.pool) :
+    ∃ s'', run discoverExits s' [.tick, .answer m] = some s'' ∧ s''.alive = true ∧ s''.pool.err = false ∧
+      metadataDecision s''.pool ⟨names, false⟩ = .fromCache (filterMetadata names (normalize m)) := by
+  obtain ⟨s'', hr, ha, _, _, _⟩ := refresh_after_faults es s s' m hrun halive hopen hphase hnoclose hinv
+  have hs : s''.pool = update s'.pool (some m) false := by
+    have hal := refresh_loop_survives_faults es s s' hrun halive hnoclose
+    simp [run, step, hal, hopen, hphase, exitsOnWake, discoverExits] at hr
+    rw [← hr]
+  refine ⟨s'', hr, ha, ?_, ?_⟩
+  · rw [hs]; simp [update, updateSuccessClearsErr]
+  · rw [hs]; exact metadata_after_recovery s'.pool m names
+
+/-- the very scenario: the first refresh fails (dial error), the second succeeds -/
+example : (run discoverExits {} [.connFail, .tick, .answer ⟨0, [⟨1, "b1", 9092, ""⟩], "", 1, []⟩]).map
+    (fun s => (s.alive, s.pool.err, s.pool.metadata.isSome)) = some (true, false, true) := by decide
+
+end recovery
+
+/-! ## encoded with the negotiated version: the body parts `Prepare` derives from it -/
+
+section prepare
+open KV.Spec.Routing (magicOK leaveGroupBodyOK)
+
+/-- **produce_record_format**: for EVERY API version the record format `Prepare` picks (regenerated from
+protocol/produce/produce.go) is the one Kafka accepts in a Produce request of that version: message sets (magic 1)
+below v3, record batches (magic 2) from v3 on -/
+theorem produce_record_format (v : Int) : magicOK v (produceMagic v 0) = true := by
+  unfold magicOK produceMagic produceRecordVersion
+  by_cases h : v < 3 <;> simp [h]
+
+/-- … it is applied to every partition of every topic, and with the version that goes into the request header
+(protocol/conn.go RoundTrip), i.e. the connection's negotiated version of the Produce key -/
+theorem prepare_uses_request_version :
+    produceCoversEveryPartition = true ∧ preparedWithRequestVersion = true ∧
+    preparedPackages = ["leavegroup", "produce"] := by decide
+
+/-- **produce_encoded_for_negotiated_version**: whatever the broker advertised, the Produce request is sent at the
+negotiated version and its record sets are in the format of THAT version -/
+theorem produce_encoded_for_negotiated_version (client : Nat → Int × Int) (table : List (Nat × Int × Int)) (v : Int)
+    (_ : requestVersion client (negotiate client table) 0 = some v) : magicOK v (produceMagic v 0) = true :=
+  produce_record_format v
+
+/-- an explicit record format of the caller is left alone (documented override in Prepare) -/
+theorem produce_explicit_format_kept (v g : Int) (h : g ≠ 0) : produceMagic v g = g := by
+  simp [produceMagic, produceKeepsExplicitVersion, h]
+
+/-- **leave_group_body**: at every version the LeaveGroup body names the leaving member(s) in the field that version
+has: the first of `Members` moves to `MemberID` below v3 -/
+theorem leave_group_body (v : Int) (members : List String) :
+    leaveGroupBodyOK v members (leaveGroupWire v "" members).1 (leaveGroupWire v "" members).2 = true := by
+  unfold leaveGroupBodyOK leaveGroupWire leaveGroupCopiesFirstMember
+  by_cases h : v < 3
+  · cases members <;> simp [h]
+  · simp [h]
+
+end prepare
+
+/-! ## the parts of a split request carry the caller's request -/
+
+section splitfields
+open KV.Spec.Routing (optionOK optionSince)
+
+/-- **split_parts_carry_request_fields**: for every protocol package with a `Split` method (regenerated: wire fields of
+Request, fields set by each sub-request literal of Split), every sub-request sets every wire field of the request —
+nothing the caller put into the request is lost on the way to the designated brokers -/
+theorem split_parts_carry_request_fields :
+    (splitSubrequests.all fun (_, fields, subs) => subs.all fun s => fields.all fun f => s.any (·.1 == f)) = true := by
+  decide
+
+/-- … hence an option switched on by the caller arrives switched on at every version that has it -/
+theorem split_options_arrive (v : Int) :
+    optionOK 32 "IncludeSynonyms" v (optionArrives "describeconfigs" "IncludeSynonyms" 1 v) = true ∧
+    optionOK 32 "IncludeDocumentation" v (optionArrives "describeconfigs" "IncludeDocumentation" 3 v) = true ∧
+    optionOK 15 "IncludeAuthorizedOperations" v (optionArrives "describegroups" "IncludeAuthorizedOperations" 3 v) = true := by
+  have h1 : splitCarries "describeconfigs" "IncludeSynonyms" = true := by decide
+  have h2 : splitCarries "describeconfigs" "IncludeDocumentation" = true := by decide
+  have h3 : splitCarries "describegroups" "IncludeAuthorizedOperations" = true := by decide
+  simp [optionOK, optionSince, optionArrives, h1, h2, h3]
+
+end splitfields
 
 end KV.Props.C12
